@@ -64,10 +64,11 @@ def replay (j : Json) : R Verdict := do
   | some "ok" => if !okExit then
       pf := ((if family == "kill-after" || family == "kill-huge" then "C07" else "C16"), s!"expected a successful run, got exit status {(fieldD obs "exitCode").compress}: {((fieldD obs "stderrTail").getStr?.toOption.getD "").takeEnd 160}") :: pf
   | some "fail" => if okExit then
-      pf := ((if family == "failure" then "C06" else if family == "kill-zero" then "C07" else "C16"),
+      pf := ((if family == "failure" || family == "outputs" then "C06" else if family == "kill-zero" then "C07" else "C16"),
              (if family == "kill-zero" then "with a per-evaluation limit of zero every evaluation exceeds its limit, yet the run succeeded: evaluations were not ended at their time limit"
+              else if family == "outputs" then s!"every child of this run fails its evaluation (ill-shaped output or a death by signal, also after a valid answer: {(fieldD (fieldD j "plan") "default").compress}), yet the run ended with exit status 0"
               else s!"expected a failing run ({family}), got exit status 0")) :: pf
-      if family == "failure" then pf := ("C16", "a failing child did not make the tool fail") :: pf
+      if family == "failure" || family == "outputs" then pf := ("C16", "a failing child did not make the tool fail") :: pf
   | _ => pure ()
   -- C16: stdout
   if okExit && stdoutLines != 1 then pf := ("C16", s!"successful run printed {stdoutLines} lines on stdout") :: pf
